@@ -21,10 +21,12 @@ func newWorld(cs *Case) *World {
 
 // seqOracles selects which per-step oracles a single-client world runs.
 type seqOracles struct {
-	dump     bool // full-state comparison with the model after every step
-	twin     bool // C02 part A: a twin collection runs the history without the aborted transactions
-	triggers bool
-	stream   bool // tap-based stream checks (nothing emitted for rollbacks, ...)
+	dump      bool // full-state comparison with the model after every step
+	twin      bool // C02 part A: a twin collection runs the history without the aborted transactions
+	triggers  bool
+	stream    bool           // tap-based stream checks (nothing emitted for rollbacks, ...)
+	final     func(w *World) // extra checks on the final state (fault enumeration)
+	roundtrip bool           // every emitted commit is also cloned and serialized through the simulated disk
 }
 
 // runSeq executes a single-client history.
@@ -43,6 +45,22 @@ func runSeq(cs *Case, or seqOracles) (w *World) {
 	w.prefill(w.primary, cs.Cfg.Prefill)
 	prefillModel(w.model, cs.Cfg.Prefill)
 	w.tap.Commits = nil
+	if or.stream {
+		rng := NewRng(cs.Seed, uint64(cs.Run), 83)
+		w.tap.onAppend = func(tc *TapCommit, c commit.Commit) {
+			if w.viol != nil || curWorld != w {
+				return
+			}
+			if mt := w.txns[0]; mt != nil {
+				tc.mt = mt
+				w.stats.Checks++
+				w.fail(w.checkDecoded(tc, mt, mt.changes[tc.Chunk]))
+			}
+			if or.roundtrip && w.viol == nil {
+				w.fail(w.tapRoundTrip(tc, c, rng))
+			}
+		}
+	}
 
 	var twin *World
 	if or.twin {
@@ -164,6 +182,9 @@ func runSeq(cs *Case, or seqOracles) (w *World) {
 			}
 		}
 	}
+	if or.final != nil && w.viol == nil {
+		or.final(w)
+	}
 	w.stats.EndState = w.model.stateHash()
 	w.stats.Nontrivial = w.stats.Commits > 0 && len(w.model.Rows) > 0
 	return w
@@ -200,4 +221,52 @@ func (w *World) dumpRows(step int) []uint32 {
 		}
 	}
 	return out
+}
+
+// tapRoundTrip sends a commit emitted by the real commit path through Commit.Clone and
+// through Commit.WriteTo -> SimFile -> chunked Commit.ReadFrom and compares what comes out
+// with what the logger was handed.
+func (w *World) tapRoundTrip(tc *TapCommit, c commit.Commit, rng *Rng) *Violation {
+	w.stats.Checks++
+	same := func(what string, got []TapBuf) *Violation {
+		if len(got) != len(tc.Bufs) {
+			return violation("codec/"+what, "%s after %s carries %d non-empty buffers instead of %d", tc, what, len(got), len(tc.Bufs))
+		}
+		for i := range got {
+			g, o := got[i], tc.Bufs[i]
+			if g.Col != o.Col || len(g.Ops) != len(o.Ops) {
+				return violation("codec/"+what, "%s after %s: buffer %q with %d operations, emitted %q with %d", tc, what, g.Col, len(g.Ops), o.Col, len(o.Ops))
+			}
+			for j := range g.Ops {
+				if g.Ops[j].Type != o.Ops[j].Type || g.Ops[j].Off != o.Ops[j].Off || string(g.Ops[j].Val) != string(o.Ops[j].Val) {
+					return violation("codec/"+what, "%s after %s: buffer %q operation #%d is {%s @%d %x}, emitted {%s @%d %x}", tc, what, g.Col, j,
+						g.Ops[j].Type, g.Ops[j].Off, clipB(g.Ops[j].Val), o.Ops[j].Type, o.Ops[j].Off, clipB(o.Ops[j].Val))
+				}
+			}
+		}
+		return nil
+	}
+	cl := c.Clone()
+	if cl.ID != c.ID || cl.Chunk != c.Chunk {
+		return violation("codec/commit-clone", "clone of %s carries (id %d, block %d)", tc, cl.ID, cl.Chunk)
+	}
+	if v := same("commit-clone", decodeCommit(cl)); v != nil {
+		return v
+	}
+	f := NewSimFile()
+	if _, err := c.WriteTo(f); err != nil {
+		return violation("codec/commit-writeto", "Commit.WriteTo: %v", err)
+	}
+	var back commit.Commit
+	maxChunk := []int{0, 1, 7, 300}[rng.Intn(4)]
+	if maxChunk > 0 {
+		w.stats.fault("read-chunking")
+	}
+	if _, err := back.ReadFrom(NewSimReader(f.Data, rng, maxChunk)); err != nil {
+		return violation("codec/commit-readfrom", "Commit.ReadFrom of complete %s (%d bytes): %v", tc, len(f.Data), err)
+	}
+	if back.ID != c.ID || back.Chunk != c.Chunk {
+		return violation("codec/commit-header", "%s read back as (id %d, block %d)", tc, back.ID, back.Chunk)
+	}
+	return same("commit-roundtrip", decodeCommit(back))
 }
